@@ -475,6 +475,8 @@ def plan_from_drift_solo(ctx, binp, rows, drifts, base_inp, info, byz, maxround,
         sk = json.dumps(steps, sort_keys=True)
         if sk in seen or percls.get(cls, 0) >= 2:
             continue
+        if len(seen) >= nprefix + 2:          # attempts, successful or not
+            break
         seen.add(sk)
         percls[cls] = percls.get(cls, 0) + 1
         k = len(plans)
@@ -625,6 +627,8 @@ def plan_from_drift_net(ctx, binp, rows, drifts, base_inp, info, byz, maxround, 
         sk = json.dumps(steps, sort_keys=True)
         if sk in seen or percls.get(cls, 0) >= 2:
             continue
+        if len(seen) >= nprefix + 1:          # attempts, successful or not (each costs up to `budget` seconds)
+            break
         seen.add(sk)
         percls[cls] = percls.get(cls, 0) + 1
         k = len(seen)
